@@ -72,10 +72,15 @@ package ch
 //@   ensures err == nil ==> len(c.writer.vec) == 0 && c.writer.bufOffset == 0 && len(c.writer.buf.Buf) == 0 {flushed-and-reset}
 //@   ensures wRI(c.writer)
 
-//@ contract (c *Client) packet(ctx) (code, err) props(C03,C08,C13)
+//@ -- every packet read is bounded by min(now + read timeout, context deadline): whenever the context
+//@ -- has a deadline or a read timeout is configured, a non-zero read deadline no later than the
+//@ -- context's is armed before the read (C10)
+//@ contract (c *Client) packet(ctx) (code, err) props(C03,C08,C10,C13)
 //@   requires c != nil && ctx != nil
 //@   modifies all(c.reader), all(ctx), all(c.conn)
 //@   ensures err == nil ==> code <= 14 {known-code}
+//@   ensures ctx.hasDl ==> c.conn.arms > old(c.conn.arms) && c.conn.armSec * 1000000000 + c.conn.armNsec <= ctx.dlSec * 1000000000 + ctx.dlNsec {deadline-not-after-context}
+//@   ensures c.readTimeout > 0 ==> c.conn.arms > old(c.conn.arms) {read-timeout-arms-deadline}
 
 //@ contract (c *Client) decode(v) (err) props(C03,C13)
 //@   requires c != nil && v != nil
